@@ -10,7 +10,9 @@ from common import LEAN_DIR, Ctx, Property, run_property
 
 warnings.filterwarnings("ignore")
 
-ATOM_CALLS = ["orthogonalize_cell", "orthogonalize_cell_origin", "orthogonalize_cell_plane", "standardize_cell", "Potential", "Potential.build",
+ATOM_CALLS = ["Potential.finite.build", "Potential.generate_slices", "Potential(AtomsEnsemble)", "DummyFrozenPhonons", "AtomsEnsemble",
+              "FrozenPhonons.randomize", "PlaneWave.multislice(atoms)", "Probe.scan(atoms)", "SMatrix(atoms)", "CrystalPotential",
+              "Potential.to_images", "flip_atoms", "merge_close_atoms", "orthogonalize_cell", "orthogonalize_cell_origin", "orthogonalize_cell_plane", "standardize_cell", "Potential", "Potential.build",
               "FrozenPhonons", "FrozenPhonons.build", "StructureFactor", "BlochWaves", "pad_atoms", "cut_cell", "rotate_atoms_to_plane",
               "atoms_in_cell", "wrapped", "shrink_cell", "is_cell_orthogonal", "plane_to_axes_noop"]
 MEAS_METHODS = ["real", "imag", "phase", "abs", "intensity", "interpolate", "crop", "gaussian_filter", "tile", "mean", "sum",
@@ -60,6 +62,39 @@ def same_atoms(s, a):
 def call_atoms(name, a, rng):
     import abtem
     from abtem import atoms as AT
+    if name == "Potential.finite.build":
+        return abtem.Potential(a, sampling=0.4, slice_thickness=2.0, projection="finite").build(lazy=False)
+    if name == "Potential.generate_slices":
+        return list(abtem.Potential(a, sampling=0.4, slice_thickness=2.0, projection="infinite").generate_slices())
+    if name == "Potential(AtomsEnsemble)":
+        from abtem.inelastic.phonons import AtomsEnsemble
+        return abtem.Potential(AtomsEnsemble([a, a.copy()]), sampling=0.4, slice_thickness=2.0, projection="infinite").build(lazy=False)
+    if name == "DummyFrozenPhonons":
+        from abtem.inelastic.phonons import DummyFrozenPhonons
+        fp = DummyFrozenPhonons(a)
+        return fp.randomize(a), fp.atoms, len(fp)
+    if name == "AtomsEnsemble":
+        from abtem.inelastic.phonons import AtomsEnsemble
+        e = AtomsEnsemble([a, a.copy()])
+        return e[0], e.trajectory if hasattr(e, "trajectory") else None
+    if name == "FrozenPhonons.randomize":
+        fp = abtem.FrozenPhonons(a, num_configs=2, sigmas=0.1, seed=3)
+        return fp.randomize(a), [c for c in fp]
+    if name == "PlaneWave.multislice(atoms)":
+        return abtem.PlaneWave(energy=100e3, sampling=0.4).multislice(a, lazy=False)
+    if name == "Probe.scan(atoms)":
+        return abtem.Probe(energy=100e3, semiangle_cutoff=20, sampling=0.4).scan(a, scan=abtem.GridScan(gpts=2), lazy=False)
+    if name == "SMatrix(atoms)":
+        return abtem.SMatrix(a, energy=100e3, semiangle_cutoff=10, sampling=0.4).build(lazy=False)
+    if name == "CrystalPotential":
+        pot = abtem.Potential(a, sampling=0.4, slice_thickness=2.0, projection="infinite")
+        return abtem.CrystalPotential(pot, repetitions=(1, 1, 2)).build(lazy=False)
+    if name == "Potential.to_images":
+        return abtem.Potential(a, sampling=0.4, slice_thickness=2.0, projection="infinite").build(lazy=False).to_images()
+    if name == "flip_atoms":
+        return AT.flip_atoms(a) if hasattr(AT, "flip_atoms") else None
+    if name == "merge_close_atoms":
+        return AT.merge_close_atoms(a) if hasattr(AT, "merge_close_atoms") else None
     if name == "orthogonalize_cell":
         return AT.orthogonalize_cell(a, max_repetitions=3)
     if name == "orthogonalize_cell_origin":
@@ -207,7 +242,7 @@ class C32(Property):
     assumptions = ["dynamic part: inputs drawn from six crystal families (incl. non-orthogonal cells, atoms outside the cell, shifted "
                    "origins) and nine measurement kinds; a mutation that needs other inputs would be missed by the snapshots",
                    "to_data_array needs xarray (not installed): its fix is covered by the static table only"]
-    rule = ("atoms calls: 17 public entry points x random structures (graphene, hcp, fcc primitive, MoS2, sheared and cubic Si; repeated; "
+    rule = ("atoms calls: 30 public entry points (potential build finite/infinite, slices, ensembles, frozen phonons, multislice/scan/SMatrix with bare atoms, cell utilities) x random structures (graphene, hcp, fcc primitive, MoS2, sheared and cubic Si; repeated; "
             "atoms outside the cell; shifted) ; measurement methods: 30 methods x 9 measurement kinds (real/complex, with/without ensemble "
             "axis); distinct = distinct (call, input) JSON; non-trivial = the call returned without raising")
 
@@ -283,7 +318,7 @@ class C32(Property):
     def conformance(self, ctx: Ctx):
         rng = ctx.rng
         kinds = ["graphene", "hex-bulk", "fcc-primitive", "mos2", "sheared", "cubic"]
-        for i in range(ctx.n(120, 1500)):
+        for i in range(ctx.n(150, 1800)):
             case = {"what": "atoms", "call": ATOM_CALLS[i % len(ATOM_CALLS)], "kind": rng.choice(kinds), "seed": rng.randint(0, 10**6)}
             out = self.oracle(ctx, case)
             ctx.count(f"atoms:{case['call']}:{out.split(':')[0]}")
